@@ -12,7 +12,7 @@ from . import expr as X
 from .interp import AbsRaise, ExcVal, ExtRef, ModelMethod, mkbool
 from .models import PyCallable, as_operand, bool_of_el
 from .repo import AnalysisError
-from .vec import El, Sc, Vec, m_conc
+from .vec import NONE_EL, El, Sc, Vec, m_conc
 
 
 def missing_attr(lib, cls, name, node):
@@ -77,6 +77,9 @@ class DF:
         for c in cols:
             if c not in self.columns:
                 raise AbsRaise(ExcVal('KeyError', (c,)), node)
+        if len(set(cols)) != len(cols):
+            # pandas keeps a label selected twice as two columns (and `frame[label]` is then a DataFrame, not a Series): outside this stub
+            raise AnalysisError('selection of the same column label more than once (duplicate column labels) not modelled', node)
         return DF(collections.OrderedDict((c, self.columns[c]) for c in cols), self.index)
 
     def select_rows(self, interp, mask, node):
@@ -134,7 +137,26 @@ class DF:
                     idx = Vec.fresh([El(X.num(i), False) for i in range(len(pos))], kind='index', dtype='i8')
                 return DF(cols, idx)
             return PyCallable(sort, name)
-        if name in ('reset_index', 'reindex', 'sample', 'drop_duplicates', 'dropna'):
+        if name == 'dropna':
+            def dropna(it, a, k, n):
+                """rows with a missing value (NaN / NaT) in any column (or in the columns of subset=) are dropped; the labels travel with the rows"""
+                if a or set(k) - {'subset', 'how', 'axis'} or k.get('axis', 0) not in (0, 'index') or k.get('how', 'any') not in ('any', 'all'):
+                    raise AnalysisError('DataFrame.dropna form not modelled', n)
+                sub = k.get('subset')
+                cols = list(self.columns) if sub is None else ([sub] if isinstance(sub, (str, int)) else list(sub))
+                for c in cols:
+                    if c not in self.columns:
+                        raise AbsRaise(ExcVal('KeyError', ([c],)), n)
+                pos = []
+                for i in range(self.nrows()):
+                    miss = [self.columns[c].el(i).d in (X.NAN, NONE_EL) for c in cols]
+                    drop = any(miss) if k.get('how', 'any') == 'any' else (all(miss) and bool(miss))
+                    if not drop:
+                        pos.append(i)
+                newcols = collections.OrderedDict((c, v.like([v.el(p) for p in pos])) for c, v in self.columns.items())
+                return DF(newcols, self.index.like([self.index.el(p) for p in pos]))
+            return PyCallable(dropna, name)
+        if name in ('reset_index', 'reindex', 'sample', 'drop_duplicates'):
             return PyCallable(lambda it, a, k, n: (_ for _ in ()).throw(AnalysisError(f'DataFrame.{name} (row reordering / reindexing) not modelled', n)), name)
         if name in self.columns and name.isidentifier():
             return self.series(name)
@@ -144,6 +166,9 @@ class DF:
 
     def abs_truth(self):
         raise AnalysisError('truth value of a DataFrame is ambiguous')
+
+    def abs_len(self):
+        return self.nrows()
 
 
 class Loc:
